@@ -36,6 +36,10 @@ public:
   {
     vsim::point(vsim::K_ATOMIC_STORE, id_);
     a_.store(v, mo);
+    // a second point AFTER a publishing operation (store, flag clear, mutex unlock): plain
+    // accesses that follow it are otherwise glued to it, and "unlock, then read shared data"
+    // could never be interleaved with another thread
+    vsim::point(vsim::K_ATOMIC_STORE, id_ | 0x80000000u);
   }
   T exchange(T v, memory_order mo = memory_order_seq_cst) noexcept
   {
@@ -134,6 +138,7 @@ public:
   {
     vsim::point(vsim::K_FLAG, id_);
     a_.store(false, mo);
+    vsim::point(vsim::K_FLAG, id_ | 0x80000000u);
   }
 
 private:
